@@ -132,6 +132,45 @@ def refresh_rule(repo: Repo, rep: Report, rid: str) -> None:
               "recomputed from cls.__fields__ with the class's alignment mode", "commit does not recompute from (cls.__fields__, cls.__align__)", cm.loc())
 
 
+def offsets_before_compile_rule(repo: Repo, rep: Report, rid: str) -> None:
+    rep.rule(rid, "field offsets are computed before the reader is (re)generated: in _update_fields the size/offset calculation (which assigns "
+                  "Field.offset) dominates the recompilation")
+    fi = repo.func("types/structure.py", "StructureMetaType._update_fields")
+    g = CFG(fi.node)
+    calc = {n.id for n in g.nodes if n.kind == "stmt" and node_calls(n, "_calculate_size_and_offsets")}
+    comp = [n for n in g.nodes if n.kind == "stmt" and node_calls(n, "compile_read")]
+    if not calc or not comp:
+        raise AnalysisError("_update_fields: offset calculation / recompilation call not found")
+    rep.check(all(g.must_pass(g.entry.id, c.id, calc) for c in comp), rid, f"{fi.key}:offsets-before-compile", "the calculation precedes compile_read on every path",
+              "the reader is recompiled before the offsets of the new field list are calculated: it is generated from stale / missing Field.offset values "
+              "(only visible in aligned mode with fields behind a gap)", fi.loc(comp[0].ast))
+    co = repo.func("types/structure.py", "StructureMetaType._calculate_size_and_offsets")
+    sets = [s2 for s2 in walk_body(co.node.body) if isinstance(s2, ast.Assign) and norm(s2.targets[0]) == "field.offset"]
+    rep.check(len(sets) >= 2, rid, f"{co.key}:assigns-offsets", "the calculator assigns every field's offset", "the calculator no longer assigns field offsets", co.loc())
+
+
+def commit_path_rule(repo: Repo, rep: Report, rid: str) -> None:
+    rep.rule(rid, "commit() has no path that skips the recomputation or the installation (no 'nothing changed' shortcut)")
+    cm = repo.func("types/structure.py", "StructureMetaType.commit")
+    g = CFG(cm.node)
+    upd = {n.id for n in g.nodes if n.kind == "stmt" and node_calls(n, "_update_fields")}
+    inst = {n.id for n in g.nodes if n.kind == "for"}
+    ok = bool(upd) and bool(inst) and g.must_pass(g.entry.id, g.exit.id, upd) and g.must_pass(g.entry.id, g.exit.id, inst)
+    rep.check(ok, rid, f"{cm.key}:no-shortcut", "every normal path recomputes and installs", "commit() can return without recomputing / installing the derived attributes "
+              "(an early return): size, offsets, generated methods and the reader would describe the previous field list", cm.loc())
+
+
+def align_flag_rule(repo: Repo, rep: Report, rid: str) -> None:
+    rep.rule(rid, "every structure the parser creates is laid out in the requested mode: each factory(...) call in TokenParser._struct passes align=self.align")
+    fi = repo.func("parser.py", "TokenParser._struct")
+    fac = [c for c in walk_body(fi.node.body) if isinstance(c, ast.Call) and norm(c.func) == "factory"]
+    for c in fac:
+        kw = {k.arg: norm(k.value) for k in c.keywords}
+        rep.check(kw.get("align") == "self.align", rid, f"{fi.key}:{short(c, 70)}", "align=self.align",
+                  f"'{short(c, 70)}' does not pass align=self.align: that structure is laid out packed although aligned mode was requested", fi.loc(c))
+    rep.floor(rid, "factory calls", len(fac), 2)
+
+
 def selfref_rule(repo: Repo, rep: Report, rid: str) -> None:
     rep.rule(rid, "self reference: the pre-registered class is created through the same factory, compiled under the same condition as the one-shot "
                   "path, registered before its body is parsed and later extended in place")
@@ -162,3 +201,6 @@ def run(repo: Repo, rep: Report, tier: str) -> None:
     commit_rule(repo, rep, "C18.R1")
     refresh_rule(repo, rep, "C18.R2")
     selfref_rule(repo, rep, "C18.R3")
+    offsets_before_compile_rule(repo, rep, "C18.R4")
+    commit_path_rule(repo, rep, "C18.R5")
+    align_flag_rule(repo, rep, "C18.R6")
